@@ -151,6 +151,16 @@ type scopeNode struct {
 	done     bool
 }
 
+func relFacts(s set) set {
+	r := set{}
+	for k := range s {
+		if strings.HasPrefix(k, "X:") {
+			r[k] = true
+		}
+	}
+	return r
+}
+
 func lspFacts(s set) set {
 	r := set{}
 	for k := range s {
@@ -190,7 +200,7 @@ func (w *world) scoped(fn *Fn, entry state) *scopeNode {
 // enterCallee (scoped mode): analyse the callees for the lock state at the call and continue with their exit state.
 func (k *walker) enterCallee(callees []*Fn) {
 	entry := state{must: lockFacts(k.st.must), may: lspFacts(k.st.may)}
-	var outMust, outMay set
+	var outMust, outMay, outRel set
 	any := false
 	for _, c := range callees {
 		n := k.w.scoped(c, entry.clone())
@@ -206,9 +216,15 @@ func (k *walker) enterCallee(callees []*Fn) {
 		any = true
 		outMust = meet(outMust, lockFacts(n.exitMust))
 		outMay = union(outMay, lspFacts(n.exitMay))
+		// "certainly acquired and released earlier" also holds after a helper that did so on every path
+		// (a lock/check/unlock prologue extracted into a method), exactly as if the helper were inlined
+		outRel = meet(outRel, relFacts(n.exitMust))
 	}
 	if !any {
 		return
+	}
+	for f := range outRel {
+		k.st.must[f] = true
 	}
 	for f := range k.st.must {
 		if strings.HasPrefix(f, "L:") {
@@ -908,6 +924,10 @@ func (k *walker) call(call *ast.CallExpr) {
 			return
 		}
 		k.calls = append(k.calls, callSite{callee: fn, must: k.st.must.clone(), may: k.st.may.clone(), pos: call.Pos()})
+		// locks the callee certainly acquired and released (on every path) count as released here too
+		for f := range relFacts(fn.exitMust) {
+			k.st.must[f] = true
+		}
 	}
 	defer func() {
 		if k.sc != nil && len(scopedCallees) > 0 {
